@@ -12,6 +12,7 @@ import (
 	"encoding/json"
 	"fmt"
 	"io"
+	"math/big"
 	"os"
 	"strings"
 	"sync"
@@ -53,11 +54,42 @@ type Contrib struct {
 	Proof      string `json:"proof"`     // 96 bytes
 }
 
+// Reg is a builderv1.ValidatorRegistration as the caller hands it over.  Its Timestamp is a Go
+// time.Time: whole seconds since the Unix epoch (negative before 1970; -62135596800 with Nanos 0
+// and Zone 0 is the zero time.Time{}), a sub-second part, and a location.  The registration message
+// of the builder specification (what is signed, sent and verified) has a uint64 of SECONDS:
+// uint64(Timestamp.Unix()), the sub-second part dropped, the location irrelevant.
 type Reg struct {
 	FeeRecipient string `json:"fee_recipient"` // 20 bytes
 	GasLimit     uint64 `json:"gas_limit"`
-	Timestamp    uint64 `json:"timestamp"`
-	Pubkey       string `json:"pubkey"` // 48 bytes
+	Timestamp    int64  `json:"timestamp"`              // Timestamp.Unix()
+	Nanos        uint64 `json:"timestamp_ns,omitempty"` // Timestamp.Nanosecond(): 0..999999999
+	Zone         int    `json:"zone,omitempty"`         // the time.Time's location: seconds east of UTC (0: UTC)
+	Pubkey       string `json:"pubkey"`                 // 48 bytes
+}
+
+// time is the time.Time of the registration.
+func (g Reg) time() time.Time {
+	t := time.Unix(g.Timestamp, int64(g.Nanos))
+	if g.Zone == 0 {
+		t = t.UTC()
+	} else {
+		t = t.In(time.FixedZone(fmt.Sprintf("east%d", g.Zone), g.Zone))
+	}
+	if t.Unix() != g.Timestamp || uint64(t.Nanosecond()) != g.Nanos || g.Nanos > 999999999 {
+		panic(fmt.Sprintf("harness: time.Time does not carry %d s + %d ns", g.Timestamp, g.Nanos))
+	}
+	return t
+}
+
+// nanosTerm: the instant in nanoseconds since the Unix epoch, as a Gallina Z (the model divides).
+func (g Reg) nanosTerm() string {
+	z := new(big.Int).Mul(big.NewInt(g.Timestamp), big.NewInt(1000000000))
+	z.Add(z, new(big.Int).SetUint64(g.Nanos))
+	if z.Sign() < 0 {
+		return "(" + z.String() + ")%Z"
+	}
+	return z.String() + "%Z"
 }
 
 // Req is one signing request: the method called and its arguments.
@@ -245,7 +277,8 @@ func specRoots(in Input) []chunk {
 		}
 	case "registration":
 		if in.Reg != nil && in.RegMode == "" {
-			r := specRegistration(unhex(in.Reg.FeeRecipient), in.Reg.GasLimit, in.Reg.Timestamp, unhex(in.Reg.Pubkey))
+			// the message has the whole seconds of the time.Time (as a uint64), whatever its sub-second part and location
+			r := specRegistration(unhex(in.Reg.FeeRecipient), in.Reg.GasLimit, uint64(in.Reg.Timestamp), unhex(in.Reg.Pubkey))
 			// builder-specs: genesis fork version and the zero genesis validators root
 			out = append(out, specSigningRoot(r, specComputeDomain([4]byte{0, 0, 0, 1}, version4(in.Chain.GenesisVersion), chunk{})))
 		}
@@ -377,7 +410,7 @@ func runStep(t *testing.T, svc *standardsigner.Service, dp *domainProvider, rec 
 					reg.Version = builderspec.BuilderVersion(7)
 				}
 				if in.RegMode != "nilv1" && in.Reg != nil {
-					v1 := &builderv1.ValidatorRegistration{GasLimit: in.Reg.GasLimit, Timestamp: time.Unix(int64(in.Reg.Timestamp), 0)}
+					v1 := &builderv1.ValidatorRegistration{GasLimit: in.Reg.GasLimit, Timestamp: in.Reg.time()}
 					copy(v1.FeeRecipient[:], unhex(in.Reg.FeeRecipient))
 					copy(v1.Pubkey[:], unhex(in.Reg.Pubkey))
 					reg.V1 = v1
@@ -483,7 +516,7 @@ func (in Input) reqTerm() string {
 		if in.Reg == nil || in.RegMode != "" {
 			return App("ReqRegistration", first, None())
 		}
-		return App("ReqRegistration", first, Some(App("Registration", hexN(in.Reg.FeeRecipient), N(in.Reg.GasLimit), N(in.Reg.Timestamp), hexN(in.Reg.Pubkey))))
+		return App("ReqRegistration", first, Some(App("GoRegistration", hexN(in.Reg.FeeRecipient), N(in.Reg.GasLimit), in.Reg.nanosTerm(), hexN(in.Reg.Pubkey))))
 	}
 	panic("kind")
 }
@@ -570,6 +603,7 @@ func TestC06(t *testing.T) {
 			v := in.view(j)
 			tags := append(append(append([]string{}, in.Tags...), derivedTags(v)...), sessionTags(in, j)...)
 			tags = append(tags, partialTags(v)...)
+			tags = append(tags, contentTags(v)...)
 			col.Count("kind:" + v.Kind)
 			col.Count("outcome:" + v.Kind + ":" + obs.Outcome)
 			for _, tg := range tags {
